@@ -40,6 +40,7 @@ import (
 	"sort"
 	"strings"
 	"sync"
+	"sync/atomic"
 	"testing"
 	"time"
 
@@ -57,10 +58,10 @@ import (
 
 const (
 	fNone      = ""
-	fUpper     = "commit-ts-upper-bound"  // after the commit ts was fetched
-	fBusy      = "commit-rpc-server-busy" // after: region errors until the budget ends
+	fUpper     = "commit-ts-upper-bound"   // after the commit ts was fetched
+	fBusy      = "commit-rpc-server-busy"  // after: region errors until the budget ends
 	fDropReq   = "commit-rpc-request-lost" // after: the Commit request never arrives
-	fKeyExists = "insert-existing-key"    // before: prewrite answers AlreadyExist
+	fKeyExists = "insert-existing-key"     // before: prewrite answers AlreadyExist
 )
 
 type rec struct {
@@ -78,7 +79,9 @@ type rec struct {
 	CommitTS uint64   `json:"commit_ts"`  // KVTxn.CommitTS() after Commit
 	Fetched  uint64   `json:"fetched_ts"` // commit ts the committer fetched (0 if it never got that far)
 
-	txn *transaction.KVTxn
+	txn    *transaction.KVTxn
+	called atomic.Bool // Commit is about to be called (read by gates)
+	done   atomic.Bool // Commit returned and the record is complete
 	// derived from the log
 	firstPrewrite int64
 	sectionEnd    int64
@@ -111,16 +114,20 @@ type params struct {
 }
 
 type session struct {
-	p     params
-	r     *vrep.Report
-	u     *uni.Universe
-	c1    *uni.ClientStore // latches enabled
-	c2    *uni.ClientStore // another store: its commits are invisible to c1's latches
-	keys  []string
-	plan  sync.Map // start ts -> fault kind, for the decider
-	recs  []*rec
-	nextN int
-	rng   *rand.Rand
+	p         params
+	r         *vrep.Report
+	u         *uni.Universe
+	c1        *uni.ClientStore // latches enabled
+	c2        *uni.ClientStore // another store: its commits are invisible to c1's latches
+	keys      []string
+	plan      sync.Map // start ts -> fault kind, for the decider
+	recs      []*rec
+	events    atomic.Int64 // Commit calls + returns
+	seenCalls int
+	txnCalls  int64
+	stuck     bool // a Commit never returned although nobody was left to wait for: violation recorded, universe abandoned
+	nextN     int
+	rng       *rand.Rand
 }
 
 func classify(err error) string {
@@ -153,16 +160,21 @@ func errKind(err error) string {
 }
 
 func (s *session) begin(c *uni.ClientStore, round int, wave string, nk int, fault string) (*rec, error) {
+	var ks []string
+	for _, i := range s.rng.Perm(len(s.keys))[:nk] {
+		ks = append(ks, s.keys[i])
+	}
+	return s.beginKeys(c, round, wave, ks, fault)
+}
+
+func (s *session) beginKeys(c *uni.ClientStore, round int, wave string, ks []string, fault string) (*rec, error) {
 	txn, err := c.Begin()
 	if err != nil {
 		return nil, err
 	}
 	x := &rec{N: s.nextN, Round: round, Wave: wave, Latched: c == s.c1, Start: txn.StartTS(), Fault: fault, txn: txn}
 	s.nextN++
-	perm := s.rng.Perm(len(s.keys))[:nk]
-	for _, i := range perm {
-		x.Keys = append(x.Keys, s.keys[i])
-	}
+	x.Keys = append(x.Keys, ks...)
 	sort.Strings(x.Keys)
 	for i, k := range x.Keys {
 		val := []byte(fmt.Sprintf("v-%d-%d-%s", s.p.Session, x.N, k))
@@ -190,8 +202,11 @@ func (s *session) commit(x *rec, rng *rand.Rand) {
 		runtime.Gosched()
 	}
 	x.Call = s.u.Log.Next()
+	x.called.Store(true)
+	s.events.Add(1)
 	err := x.txn.Commit(context.Background())
 	x.Ret = s.u.Log.Next()
+	s.events.Add(1)
 	x.Class = classify(err)
 	if err != nil {
 		x.Err = fmt.Sprintf("%T: %v", err, err)
@@ -202,32 +217,107 @@ func (s *session) commit(x *rec, rng *rand.Rand) {
 	x.CommitTS = x.txn.CommitTS()
 }
 
-// wave commits the given transactions concurrently; false = watchdog fired
+// wave commits the given transactions concurrently and waits for them.
+//
+// Progress is decided in logical terms: the harness counts every RPC call of the
+// universe and every Commit call/return.  If Commits are still open while for
+// a thousand consecutive polls no such event happened and no RPC is in flight, every transaction that could still unlock
+// anything has finished (a Commit that holds latches is either inside an RPC
+// or about to issue one: back-off sleeps are skipped) - the open Commits sit in
+// LatchesScheduler.Lock and nobody is left to wake them.  The wall clock only
+// paces the polls and adds a generous bound (the hand-over takes microseconds).
+// false = the session cannot go on (s.stuck: violation recorded; else inconclusive).
 func (s *session) wave(xs []*rec) bool {
-	var wg sync.WaitGroup
 	for _, x := range xs {
-		wg.Add(1)
 		rng := rand.New(rand.NewSource(s.p.Seed + int64(x.N)*7919))
 		go func(x *rec) {
-			defer wg.Done()
 			s.commit(x, rng)
+			x.done.Store(true)
 		}(x)
 	}
-	fin := make(chan struct{})
-	go func() { wg.Wait(); close(fin) }()
-	select {
-	case <-fin:
-		return true
-	case <-time.After(90 * time.Second):
-		var open []string
-		for _, x := range xs {
-			if x.Ret == 0 {
-				open = append(open, x.String())
+	started := time.Now()
+	// events that matter: RPC calls of any client and Commit calls/returns of this session (the sequencer itself also
+	// counts the timestamps that every store's background updater fetches every 2 s, which says nothing about progress)
+	// and the StoreSafeTS RPC each store sends every 2 s, which say nothing about progress)
+	activity := func() int64 {
+		for _, c := range s.u.Log.CallsFrom(s.seenCalls) {
+			s.seenCalls++
+			if c.Cmd != tikvrpc.CmdStoreSafeTS {
+				s.txnCalls++
 			}
 		}
-		s.r.Inconc("c17-txn session %d: Commit of %d transactions did not return within the watchdog: %v", s.p.Session, len(open), open)
-		return false
+		return s.txnCalls<<20 + s.events.Load()
 	}
+	lastSeq := activity()
+	quiet := 0
+	var quietSince time.Time
+	for poll := 0; ; poll++ {
+		var open []*rec
+		for _, x := range xs {
+			if !x.done.Load() {
+				open = append(open, x)
+			}
+		}
+		if len(open) == 0 {
+			return true
+		}
+		if poll < 200 {
+			runtime.Gosched()
+		} else {
+			time.Sleep(500 * time.Microsecond)
+		}
+		now := activity()
+		if now == lastSeq && s.c1.Net.Inflight() == 0 && s.c2.Net.Inflight() == 0 {
+			if quiet == 0 {
+				quietSince = time.Now()
+			}
+			quiet++
+		} else {
+			quiet = 0
+			lastSeq = now
+		}
+		if quiet >= 1000 && time.Since(quietSince) > 4*time.Second {
+			s.reportStuck(open, quiet)
+			return false
+		}
+		if time.Since(started) > 90*time.Second {
+			var os []string
+			for _, x := range open {
+				os = append(os, x.String())
+			}
+			s.r.Inconc("c17-txn session %d: Commit of %d transactions did not return within the watchdog while the universe was still active: %v", s.p.Session, len(open), os)
+			return false
+		}
+	}
+}
+
+func (s *session) reportStuck(open []*rec, polls int) {
+	s.stuck = true
+	x := open[0]
+	var holders []string
+	var suspect *rec
+	for i := len(s.recs) - 1; i >= 0; i-- {
+		h := s.recs[i]
+		if h == x || !h.Latched || !h.done.Load() || h.shares(x) == "" {
+			continue
+		}
+		if suspect == nil && h.Class == "latch" {
+			suspect = h
+		}
+		if len(holders) < 10 {
+			holders = append(holders, h.String())
+		}
+	}
+	var os []string
+	for _, o := range open {
+		os = append(os, fmt.Sprintf("{#%d r%d%s start=%d keys=%v commit called@%d}", o.N, o.Round, o.Wave, o.Start, o.Keys, o.Call))
+	}
+	msg := fmt.Sprintf("Commit of %s never returns: every other Commit has returned, no RPC is in flight and no RPC was sent nor any Commit called or answered for %d consecutive polls (%d Commit(s) open) - it waits for a latch that nobody holds any more", os[0], polls, len(open))
+	if suspect != nil {
+		msg += fmt.Sprintf("; the last finished transaction of the store on one of its keys that was answered ErrWriteConflictInLatch: %v (a stale latch request holds the latches of its earlier keys / the handed-over key and has to unlock them)", suspect)
+	}
+	s.r.Violate("txn:lock-request-never-returns-although-every-holder-finished", msg,
+		map[string]any{"params": s.p, "open_commits": os, "finished_transactions_on_its_keys(newest first)": holders, "suspect": suspect})
 }
 
 func (s *session) run() bool {
@@ -252,6 +342,9 @@ func (s *session) run() bool {
 			return uni.Action{}
 		}
 		if f, ok := s.plan.Load(c.StartTS); ok {
+			if gate, isGate := f.(func()); isGate {
+				return uni.Action{Before: gate}
+			}
 			switch f.(string) {
 			case fBusy:
 				return uni.Action{Kind: uni.RegionErr, RegErr: &errorpb.Error{Message: "injected", ServerIsBusy: &errorpb.ServerIsBusy{Reason: "verif"}}}
@@ -265,6 +358,11 @@ func (s *session) run() bool {
 		s.keys = append(s.keys, fmt.Sprintf("c17-%d-k%d", s.p.Session, i))
 	}
 	for round := 0; round < s.p.Rounds; round++ {
+		if s.rng.Intn(3) == 0 {
+			if !s.shapeRound(round) {
+				return false
+			}
+		}
 		mode := s.rng.Intn(4) // 0: no faults, 1: every commit of wave A fails after its commit ts, 2,3: mixed
 		g := 2 + s.rng.Intn(7)
 		var early []*rec
@@ -347,6 +445,62 @@ func (s *session) run() bool {
 		}
 	}
 	return s.check()
+}
+
+// shapeRound: H commits only the LAST key; X (begun before) asks for the first
+// .. last keys, so it is found stale on its last key while it holds the earlier
+// ones (variant 0: on its own acquire, variant 1: on wake-up, queued behind H
+// whose Commit RPC is gated until X has called Commit); then fresh transactions
+// ask for X's FIRST key(s).
+func (s *session) shapeRound(round int) bool {
+	first, last := s.keys[0], s.keys[len(s.keys)-1]
+	xk := []string{first, last}
+	if len(s.keys) > 2 && s.rng.Intn(2) == 0 {
+		xk = append(xk, s.keys[1+s.rng.Intn(len(s.keys)-2)])
+	}
+	h, err := s.beginKeys(s.c1, round, "sH", []string{last}, fNone)
+	if err != nil {
+		s.r.Inconc("begin: %v", err)
+		return false
+	}
+	x, err := s.beginKeys(s.c1, round, "sX", xk, fNone)
+	if err != nil {
+		s.r.Inconc("begin: %v", err)
+		return false
+	}
+	if s.rng.Intn(2) == 0 {
+		if !s.wave([]*rec{h}) || !s.wave([]*rec{x}) {
+			return false
+		}
+	} else {
+		s.plan.Store(h.Start, func() {
+			for i := 0; i < 200000 && !x.called.Load(); i++ {
+				runtime.Gosched()
+			}
+			for i := 0; i < 30; i++ {
+				runtime.Gosched()
+			}
+			time.Sleep(200 * time.Microsecond)
+		})
+		if !s.wave([]*rec{h, x}) {
+			return false
+		}
+	}
+	var fresh []*rec
+	for i := 1 + s.rng.Intn(2); i > 0; i-- {
+		fk := []string{first}
+		if len(xk) > 2 && s.rng.Intn(2) == 0 {
+			fk = append(fk, xk[2])
+		}
+		f, err := s.beginKeys(s.c1, round, "sF", fk, fNone)
+		if err != nil {
+			s.r.Inconc("begin: %v", err)
+			return false
+		}
+		fresh = append(fresh, f)
+	}
+	s.r.Count("shape_rounds(stale on a later key, then fresh requests for the first key)", 1)
+	return s.wave(fresh)
 }
 
 func (s *session) check() bool {
@@ -448,6 +602,14 @@ func (s *session) check() bool {
 				r.Violate(sig, msg, map[string]any{"params": s.p, "answered": x, "failed_holder": failedHolder})
 			}
 		}
+		if x.Class == "latch" && len(x.Keys) >= 2 {
+			for _, y := range mine {
+				if y.Call > x.Ret && y.Ret != 0 && (y.Keys[0] == x.Keys[0] || len(y.Keys) > 1 && y.Keys[1] == x.Keys[0]) {
+					r.Count("returned_requests_for_first_key_of_an_earlier_stale_multi_key_request", 1)
+					break
+				}
+			}
+		}
 		// (a2) what must be answered by the latch
 		for _, h := range mine {
 			k := h.shares(x)
@@ -521,7 +683,15 @@ func TestVerifC17Txn(t *testing.T) {
 	for sn := 0; sn < vrep.Pick(80, 1200); sn++ {
 		p := params{Session: sn, Seed: master.Int63(), Slots: []uint{1, 2, 4}[master.Intn(3)], NKeys: 2 + master.Intn(3), Rounds: vrep.Pick(10, 14)}
 		s := &session{p: p, r: r, rng: rand.New(rand.NewSource(p.Seed))}
-		if !s.run() {
+		ok := s.run()
+		if s.stuck {
+			r.Count("sessions_abandoned_with_a_blocked_commit", 1)
+			if r.Get("sessions_abandoned_with_a_blocked_commit") >= 2 {
+				break
+			}
+			continue
+		}
+		if !ok {
 			break
 		}
 		if r.NViolations() > 12 {
@@ -534,4 +704,5 @@ func TestVerifC17Txn(t *testing.T) {
 	r.Floor("holders_failed_after_commit_ts", 200)
 	r.Floor("passed_latch_after_failed_holder_with_newer_fetched_ts", 80)
 	r.Floor("wire_sections_compared", 1000)
+	r.Floor("returned_requests_for_first_key_of_an_earlier_stale_multi_key_request", 300)
 }
